@@ -182,7 +182,41 @@ func (rp recvProp) Exec(c Case) []string {
 
 // reconnect does what Client.Resume does after the Disconnected event - Client.connect on the kept Session - against
 // a scripted server that offers stream management and confirms the resumption, and reports the <resume/> request.
-func reconnect(client *xmpp.Client, cfg *xmpp.Config, sess *xmpp.Session, smid string, refuse bool) string {
+// stagedReader delivers its stages one after the other, stage k+1 only once gate k has been closed, and blocks after
+// the last one until the last gate is closed (then EOF): a connection that stays open and silent.
+type stagedReader struct {
+	stages [][]byte
+	gates  []chan struct{}
+	i      int
+	buf    []byte
+}
+
+func newStaged(stages ...string) *stagedReader {
+	r := &stagedReader{}
+	for _, s := range stages {
+		r.stages = append(r.stages, []byte(s))
+		r.gates = append(r.gates, make(chan struct{}))
+	}
+	return r
+}
+
+func (r *stagedReader) Read(p []byte) (int, error) {
+	for len(r.buf) == 0 {
+		if r.i > 0 {
+			<-r.gates[r.i-1]
+		}
+		if r.i >= len(r.stages) {
+			return 0, io.EOF
+		}
+		r.buf = r.stages[r.i]
+		r.i++
+	}
+	n := copy(p, r.buf)
+	r.buf = r.buf[n:]
+	return n, nil
+}
+
+func reconnect(client *xmpp.Client, cfg *xmpp.Config, sess *xmpp.Session, smid string, refuse bool, again ...bool) string {
 	reply := "<resumed xmlns='urn:xmpp:sm:3' previd='" + smid + "' h='57'/>"
 	if refuse {
 		// the server refuses the resumption: a fresh session is bound and stream management enabled anew
@@ -192,10 +226,21 @@ func reconnect(client *xmpp.Client, cfg *xmpp.Config, sess *xmpp.Session, smid s
 		"<stream:features><mechanisms xmlns='urn:ietf:params:xml:ns:xmpp-sasl'><mechanism>PLAIN</mechanism></mechanisms><sm xmlns='urn:xmpp:sm:3'/></stream:features>" +
 		"<success xmlns='urn:ietf:params:xml:ns:xmpp-sasl'/>" +
 		"<stream:features><bind xmlns='urn:ietf:params:xml:ns:xmpp-bind'/><sm xmlns='urn:xmpp:sm:3'/></stream:features>" +
-		reply +
-		"<iq type='result' id='x'><bind xmlns='urn:ietf:params:xml:ns:xmpp-bind'><jid>u@localhost/r</jid></bind></iq>" +
+		reply
+	// what a refused resumption goes on with (a confirmed one does not read it during the negotiation)
+	bindTail := "<iq type='result' id='x'><bind xmlns='urn:ietf:params:xml:ns:xmpp-bind'><jid>u@localhost/r</jid></bind></iq>" +
 		"<enabled xmlns='urn:xmpp:sm:3' id='sm-new' resume='true'/>"
-	st2 := newStub(strings.NewReader(script))
+	// again: the resumed session then receives three more stanzas, stays open, and the application reconnects once
+	// more on its own (no Disconnected event in between): the second <resume/> presents the count of the session as it
+	// is then
+	var staged *stagedReader
+	var st2 *stubTransport
+	if len(again) > 0 && again[0] && !refuse {
+		staged = newStaged(script, "<message id='m1'/><presence/><iq type='result' id='zz'/>")
+		st2 = newStub(staged)
+	} else {
+		st2 = newStub(strings.NewReader(script + bindTail))
+	}
 	if _, err := stanza.InitStream(st2.GetDecoder()); err != nil {
 		return "initstream-failed"
 	}
@@ -211,7 +256,12 @@ func reconnect(client *xmpp.Client, cfg *xmpp.Config, sess *xmpp.Session, smid s
 				done <- "panic"
 			}
 		}()
-		xmpp.VerifClientConnect(client)
+		if staged != nil {
+			// the whole of Client.Resume: the receiver of the resumed session is started
+			client.Resume()
+		} else {
+			xmpp.VerifClientConnect(client)
+		}
 		done <- ""
 	}()
 	select {
@@ -246,7 +296,22 @@ func reconnect(client *xmpp.Client, cfg *xmpp.Config, sess *xmpp.Session, smid s
 			if client.Session != nil {
 				after = strconv.Itoa(int(client.Session.SMState.Inbound))
 			}
-			return hx(attr("previd")) + ":" + attr("h") + ":" + after
+			res := hx(attr("previd")) + ":" + attr("h") + ":" + after
+			if staged != nil && client.Session != nil {
+				base := client.Session.SMState.Inbound
+				close(staged.gates[0])
+				for i := 0; i < 400 && client.Session.SMState.Inbound < base+3; i++ {
+					time.Sleep(5 * time.Millisecond)
+				}
+				second := reconnect(client, cfg, client.Session, smid, false)
+				close(staged.gates[1])
+				h2 := "?"
+				if f := strings.Split(second, ":"); len(f) == 3 {
+					h2 = f[1]
+				}
+				res += ":" + h2
+			}
+			return res
 		}
 	}
 	return "none"
@@ -556,7 +621,7 @@ func (rp *recvProp) run(c Case, component bool, smid string, n0 int, rng *rand.R
 		if fails {
 			rp.resumeObs = resumeFails(rcClient)
 		} else {
-			rp.resumeObs = reconnect(rcClient, rcCfg, rcSess, smid, refuse)
+			rp.resumeObs = reconnect(rcClient, rcCfg, rcSess, smid, refuse, true)
 		}
 		mu.Lock()
 	}
